@@ -222,3 +222,34 @@ def match_known(known, pid, rule, key):
             if rules is None or rule in rules:
                 return k
     return None
+
+
+
+class Premise:
+    """view of a Report that files another property's rule instances under one premise rule
+    of this property (same obligations, rule id and keys prefixed), so that a property whose
+    identity rests on another check's facts fails when those facts fail"""
+
+    def __init__(self, rep, rule, prefix):
+        self._rep, self._rule, self._prefix = rep, rule, prefix
+
+    def rule(self, rid, text):
+        pass
+
+    def ob(self, rule, instance, ok, site="", detail="", key=None):
+        return self._rep.ob(self._rule, "premise (%s.%s): %s" % (self._prefix, rule, instance), ok, site, detail, key="%s/%s" % (self._prefix, key if key is not None else instance))
+
+    def error(self, rule, msg, site=""):
+        return self._rep.error(self._rule, "%s.%s: %s" % (self._prefix, rule, msg), site)
+
+    def floor(self, rule, count, minimum):
+        return self._rep.floor("%s.%s.%s" % (self._rule, self._prefix, rule), count, minimum)
+
+    def __getattr__(self, name):
+        return getattr(self._rep, name)
+
+    def __setattr__(self, name, value):
+        if name.startswith("_"):
+            object.__setattr__(self, name, value)
+        else:
+            setattr(self._rep, name, value)
